@@ -1,10 +1,10 @@
 """Fact normalisation: private helper functions the rules do not know are inlined back into their callers.
 
-The rules are anchored on the function decomposition they were confirmed against (`rules/known_fns.json`, the
+The rules are anchored on the function decomposition they were confirmed against (`rules/baseline.json`, the
 workspace functions of the tree the rules were written for).  Extracting part of such a function into a new private
 helper is behaviour preserving, but moves code out of the anchor.  Before any rule runs, every call of a workspace
 function that is
-  * not in the baseline list, * not `pub`, * not an `unsafe fn`, * not a closure, * not recursive, * has MIR,
+  * not in the baseline list, * not part of the public API, * not an `unsafe fn`, * not a closure, * not recursive, * has MIR,
 is replaced by the callee's MIR (locals and blocks renumbered, arguments assigned to the parameters, `return`
 turned into an assignment of the destination and a jump to the call's target); the instance call graph gets
 the callee instance's edges at the new block numbers.  The helper itself stays in the fact base (rules that
@@ -21,12 +21,107 @@ MAX_ROUNDS = 4
 _BLOCK_KEYS = ("target", "unwind", "otherwise")
 
 
-def known():
-    p = os.path.join(HERE, "known_fns.json")
+def baseline():
+    """{"fns": {norm id: [kind, pub, [types of _0.._argc]]}, "adts": {path: [[variant name, [[field, ty, pub], ..]], ..]}}"""
+    p = os.path.join(HERE, "baseline.json")
     try:
-        return set(json.load(open(p)))
+        return json.load(open(p))
     except Exception:
         return None
+
+
+def known():
+    b = baseline()
+    return set(b["fns"]) if b else None
+
+
+def fn_sig(j):
+    # (second entry: part of the public API -- `pub` inside a private module is not)
+    return [j["kind"], bool(j.get("reachable_pub")), [l.get("s", "") for l in j["locals"][: j["argc"] + 1]]]
+
+
+def make_baseline(raw):
+    """raw: {crate: parsed fact json} of the confirmed tree"""
+    fns, adts = {}, {}
+    for c, j in raw.items():
+        for f in j["fns"]:
+            if f.get("external") or f.get("kind") not in ("Fn", "AssocFn"):
+                continue
+            fns[norm(f["id"])] = fn_sig(f)
+        for a in j["adts"]:
+            if a.get("local"):
+                adts[a["path"]] = [[v["name"], [[x["name"], x["ty"], bool(x.get("pub"))] for x in v["fields"]]] for v in a["variants"]]
+    return {"fns": fns, "adts": adts}
+
+
+def detect_renames(raw, base):
+    """private functions and private fields that only changed their name since the baseline:
+    returns ({new segment: old segment} for functions, {(adt, new field): old field})"""
+    fn_map, field_map = {}, {}
+    have = {}
+    for c, j in raw.items():
+        for f in j["fns"]:
+            if f.get("external") or f.get("kind") not in ("Fn", "AssocFn"):
+                continue
+            have[norm(f["id"])] = f
+    missing = [b for b in base["fns"] if b not in have]
+    unknown = [i for i in have if i not in base["fns"]]
+    used = set()
+    for b in sorted(missing):
+        parent = b.rsplit("::", 1)[0]
+        kind, pub, sig = base["fns"][b]
+        if pub:
+            continue  # a renamed public item is an API change, not a refactoring
+        cands = [u for u in unknown if u.rsplit("::", 1)[0] == parent and fn_sig(have[u]) == [kind, pub, sig] and u not in used]
+        # the missing one must be the only missing function of that shape in the parent, too
+        rivals = [m for m in missing if m != b and m.rsplit("::", 1)[0] == parent and base["fns"][m] == base["fns"][b]]
+        if len(cands) == 1 and not rivals:
+            new_seg, old_seg = cands[0].rsplit("::", 1)[1], b.rsplit("::", 1)[1]
+            # the new name must be unambiguous as a path segment in the whole workspace
+            if sum(1 for i in have if i.rsplit("::", 1)[1] == new_seg) == 1 and new_seg not in fn_map:
+                fn_map[new_seg] = old_seg
+                used.add(cands[0])
+    for c, j in raw.items():
+        for a in j["adts"]:
+            b = base["adts"].get(a["path"])
+            if not b or not a.get("local") or len(b) != len(a["variants"]):
+                continue
+            for (bvn, bfs), v in zip(b, a["variants"]):
+                if bvn != v["name"] or len(bfs) != len(v["fields"]):
+                    continue
+                now = [x["name"] for x in v["fields"]]
+                was = [x[0] for x in bfs]
+                for (on, oty, opub), x in zip(bfs, v["fields"]):
+                    if x["name"] != on and x["ty"] == oty and not opub and not x.get("pub") and on not in now and x["name"] not in was and not x["name"].isdigit():
+                        field_map[(a["path"], x["name"])] = on
+    return fn_map, field_map
+
+
+def apply_fn_renames(text, fn_map):
+    import re
+    for new, old in fn_map.items():
+        text = re.sub(r"(?<=::)" + re.escape(new) + r"(?![A-Za-z0-9_])", old, text)
+    return text
+
+
+def apply_field_renames(x, field_map):
+    """in place, on parsed fact json"""
+    if isinstance(x, dict):
+        of = x.get("of")
+        if of is not None and (of, x.get("name")) in field_map:
+            x["name"] = field_map[(of, x["name"])]
+        if x.get("k") == "agg" and x.get("adt") and isinstance(x.get("fields"), list):
+            x["fields"] = [field_map.get((x["adt"], n), n) for n in x["fields"]]
+        if "path" in x and "variants" in x and isinstance(x["variants"], list):
+            for v in x["variants"]:
+                for fl in v.get("fields", []):
+                    if (x["path"], fl.get("name")) in field_map:
+                        fl["name"] = field_map[(x["path"], fl["name"])]
+        for v in x.values():
+            apply_field_renames(v, field_map)
+    elif isinstance(x, list):
+        for v in x:
+            apply_field_renames(v, field_map)
 
 
 def _shift(x, loff, boff):
@@ -88,7 +183,7 @@ def candidates(facts, base):
         if norm(i) in base:
             continue
         j = f.j
-        if j.get("pub") or j.get("unsafe_fn") or not f.blocks or len(f.blocks) > MAX_BLOCKS:
+        if j.get("reachable_pub") or j.get("unsafe_fn") or not f.blocks or len(f.blocks) > MAX_BLOCKS:
             continue
         out[i] = f
     return out
